@@ -15,12 +15,14 @@ import (
 	"strconv"
 	"strings"
 	"sync"
+	"sync/atomic"
 	"testing"
 	"time"
 
 	"verifharness/hx"
 
 	"github.com/BurntSushi/toml"
+	metrics "github.com/Dieterbe/go-metrics"
 	"github.com/grafana/carbon-relay-ng/aggregator"
 	"github.com/grafana/carbon-relay-ng/cfg"
 	"github.com/grafana/carbon-relay-ng/destination"
@@ -36,11 +38,12 @@ const (
 	exitRecycle = 4
 )
 
-// sink accepts connections and discards what it reads; every accepted conn stays referenced
+// sink accepts connections, counts and discards what it reads; every accepted conn stays referenced
 type sink struct {
 	l     net.Listener
 	mu    sync.Mutex
 	conns []net.Conn
+	bytes int64
 }
 
 func newSink() *sink {
@@ -58,7 +61,16 @@ func newSink() *sink {
 			s.mu.Lock()
 			s.conns = append(s.conns, c)
 			s.mu.Unlock()
-			go io.Copy(ioutil.Discard, c)
+			go func() {
+				buf := make([]byte, 32*1024)
+				for {
+					n, err := c.Read(buf)
+					atomic.AddInt64(&s.bytes, int64(n))
+					if err != nil {
+						return
+					}
+				}
+			}()
 		}
 	}()
 	return s
@@ -120,6 +132,68 @@ func (e *env) isSink(addr string) bool {
 	return false
 }
 
+// counts is a reading of the relay's own instrumentation (go-metrics registry, process-global: use deltas)
+// plus the bytes the sinks received
+type counts struct {
+	badPickle int64 // dest=*.action=drop.reason=bad_pickle: lines a pickle=true connection could not parse
+	out       int64 // dest=*.direction=out: lines written to a connection / posted by grafanaNet
+	drop      int64 // dest=*.action=drop.* other than bad_pickle
+	aggOut    int64 // direction=out.aggregator=*: aggregation results flushed into the table
+	buffered  int64 // dest=*.what=numBuffered gauges: lines a connection has not yet taken from its channel
+	all       int64 // sum of all counters (activity signature)
+	sink      int64
+}
+
+func (e *env) counts() counts {
+	var c counts
+	metrics.DefaultRegistry.Each(func(name string, i interface{}) {
+		switch m := i.(type) {
+		case metrics.Counter:
+			v := m.Count()
+			c.all += v
+			switch {
+			case strings.Contains(name, "reason_is_bad_pickle"):
+				c.badPickle += v
+			case strings.Contains(name, "dest_is_") && strings.Contains(name, "action_is_drop"):
+				c.drop += v
+			case strings.Contains(name, "dest_is_") && strings.HasSuffix(name, "unit_is_Metric.direction_is_out"):
+				c.out += v
+			case strings.Contains(name, "direction_is_out.aggregator_is_"):
+				c.aggOut += v
+			}
+		case metrics.Gauge:
+			if strings.Contains(name, "dest_is_") && strings.HasSuffix(name, "what_is_numBuffered") {
+				c.buffered += m.Value()
+			}
+		}
+	})
+	for _, s := range e.sinks {
+		c.sink += atomic.LoadInt64(&s.bytes)
+	}
+	return c
+}
+
+// quiesce polls until the connections have taken everything from their channels and neither a counter of the
+// relay nor the sinks moved for a few consecutive polls; false if that did not happen within d
+func (e *env) quiesce(d time.Duration) bool {
+	deadline := time.Now().Add(d)
+	last, same := e.counts(), 0
+	for {
+		time.Sleep(2 * time.Millisecond)
+		c := e.counts()
+		if c == last && c.buffered <= 0 {
+			if same++; same >= 3 {
+				return true
+			}
+		} else {
+			last, same = c, 0
+		}
+		if time.Now().After(deadline) {
+			return false
+		}
+	}
+}
+
 type ev map[string]interface{}
 
 var t0 = time.Now()
@@ -172,6 +246,78 @@ type caseRun struct {
 	dirty  bool
 	naggs  int
 	hangAt time.Duration
+	rules  []*step // accepted rewriters / aggregations of the degenerate-name classes
+}
+
+// rulePump sends well-formed metrics that the accepted degenerate-name rules match through Table.Dispatch and
+// waits (polling the relay's counters, bounded) until what the rules made of them was dealt with by the
+// destinations: counted as written / bad_pickle / dropped by a connection, for aggregations after the flush.
+func (cr *caseRun) rulePump() ev {
+	e := cr.e
+	start := time.Now()
+	online := cr.waitOnline(5 * time.Second)
+	pk, nsink := false, 0
+	for _, r := range cr.tbl.Snapshot().Routes {
+		if r.Type == "GrafanaNet" {
+			nsink++
+		}
+		for _, d := range r.Dests {
+			if e.isSink(d.Addr) && d.Online {
+				nsink++
+				if d.Pickle {
+					pk = true
+				}
+			}
+		}
+	}
+	e.quiesce(time.Second)
+	c0 := e.counts()
+	anyAgg, anyRew := false, false
+	var rules []interface{}
+	for _, st := range cr.rules {
+		rules = append(rules, ev{"op": st.Cmd.Op, "via": st.Cmd.Via, "val": st.Cmd.Val})
+		if st.IsAgg {
+			anyAgg = true
+		} else {
+			anyRew = true
+		}
+	}
+	dispatch := func(round int) {
+		for _, st := range cr.rules {
+			for _, l := range ruleLines(st.Names, round) {
+				cr.tbl.Dispatch([]byte(l))
+			}
+		}
+	}
+	dispatch(0)
+	handled := func(c counts) int64 { return (c.badPickle - c0.badPickle) + (c.out - c0.out) + (c.drop - c0.drop) }
+	reached := true
+	if nsink > 0 {
+		deadline := time.Now().Add(3 * time.Second)
+		if anyAgg {
+			deadline = time.Now().Add(4500 * time.Millisecond)
+		}
+		for round := 1; ; round++ {
+			c := e.counts()
+			// rewriters act at once; an aggregation result appears after its flush and then has to be handled as well
+			if handled(c) > 0 && (!anyAgg || c.aggOut > c0.aggOut) && (anyRew || c.aggOut > c0.aggOut) {
+				break
+			}
+			if time.Now().After(deadline) {
+				reached = false
+				break
+			}
+			time.Sleep(5 * time.Millisecond)
+			if anyAgg && round%40 == 0 { // keep feeding the current second
+				dispatch(round)
+			}
+		}
+	}
+	settled := e.quiesce(time.Second)
+	c := e.counts()
+	return ev{"rules": rules, "pk": pk, "online": online, "sinks": nsink, "reached": reached, "settled": settled,
+		"bad_pickle": c.badPickle - c0.badPickle, "out": c.out - c0.out, "drop": c.drop - c0.drop, "agg_out": c.aggOut - c0.aggOut,
+		"sink_bytes": c.sink - c0.sink, "waited_ms": time.Since(start).Milliseconds()}
 }
 
 func (cr *caseRun) shape() (routes [][]interface{}, na, nb, nw int, allOnline bool) {
@@ -231,9 +377,33 @@ func (cr *caseRun) apply(st *step) error {
 	}
 }
 
+// ruleLines renders well-formed lines for the names the rules of the history match, stamped now and now+1
+// (an aggregation with wait=1 accepts a point only while its second has not passed)
+func ruleLines(names []string, round int) []string {
+	now := time.Now().Unix()
+	var out []string
+	for i, n := range names {
+		out = append(out, n+" "+strconv.Itoa(round*7+i)+" "+strconv.FormatInt(now, 10), n+" "+strconv.Itoa(i)+" "+strconv.FormatInt(now+1, 10))
+	}
+	return out
+}
+
 func (cr *caseRun) item(st *step) string {
 	chunks := make([][]byte, len(st.Chunks))
 	copy(chunks, st.Chunks)
+	if st.Item.Cls == "rulematch" {
+		lines := ruleLines(st.Names, 1)
+		if st.Item.Proto == "plain" {
+			chunks = [][]byte{[]byte(strings.Join(lines, "\n") + "\n")}
+		} else {
+			now := time.Now().Unix()
+			var items [][]byte
+			for i, n := range st.Names {
+				items = append(items, pkItem(pkStr(n), pkInt(int32(now)), pkFloat(float64(i))), pkItem(pkStr(n), pkInt(int32(now+1)), pkFloat(float64(i))))
+			}
+			chunks = [][]byte{frame(pkList(items...))}
+		}
+	}
 	var err error
 	switch st.Item.Proto {
 	case "plain":
@@ -366,6 +536,9 @@ func (cr *caseRun) run() int {
 				res, es = "rej", clip(err.Error(), 200)
 			}
 			cr.naggs = na
+			if err == nil && len(st.Names) > 0 {
+				cr.rules = append(cr.rules, st)
+			}
 			e.emit(ev{"ev": "apply", "h": h, "step": i, "cmd": st.Cmd, "res": res, "err": es, "routes": routes, "na": na, "nb": nb, "nw": nw})
 			continue
 		}
@@ -381,6 +554,16 @@ func (cr *caseRun) run() int {
 		if rc := doPump(n); rc != 0 {
 			return rc
 		}
+	}
+	// what the degenerate-name rules of the history produce really has to flow to the destinations
+	if len(cr.rules) > 0 {
+		e.emit(ev{"ev": "begin", "h": h, "step": n, "what": "rulepump"})
+		var rp ev
+		if !guarded(cr.hangAt, func() { rp = cr.rulePump() }) {
+			return hang(n, "rulepump")
+		}
+		rp["ev"], rp["h"] = "rulepump", h
+		e.emit(rp)
 	}
 	// let tickers with tiny periods fire, push a second burst through the now-flushed connections,
 	// every fourth history with an aggregator waits for an aggregation tick
